@@ -155,6 +155,8 @@ def judge (op : List String) (go : String) : Verdict :=
       let mEq := semaEq ta tb     -- `sema.Type.Equal`
       let mSeq := ta == tb        -- `StaticType.Equal`
       let mSt := Struct.sub ta tb
+      -- sema.IsSubType, interpreter.IsSubType, IsSubTypeOfSemaType in the model
+      let mIss := bit mIs ++ bit (isSubRuntime rules fuel ta tb) ++ bit (isSubOfSema rules fuel ta tb)
       let tags := ["sub", "sub-" ++ headTag ta, "super-" ++ headTag tb, "r-" ++ bit mIs,
                    (if ta.wf && tb.wf then "wf" else "not-wf")] ++
         -- the region of `runtime_agrees_kindstable_partial`: run-time relation = checker's relation
@@ -163,7 +165,9 @@ def judge (op : List String) (go : String) : Verdict :=
       let eq := fieldOf go "eq"; let seq := fieldOf go "seq"; let rt := fieldOf go "rt"
       let is := fieldOf go "is"; let chk := fieldOf go "chk"
       if (go.toList.contains 'P') then .violation "go-panic-or-internal" "a boolean" tags
-      else if !allSame is && optNever ta && tb == .prim "AnyResource" && is == "011" then
+      else if !allSame is && optNeverVsAnyResource ta tb && is == "011" && mIss == "011" then
+        -- the model of the run-time relations (optionals unwrapped before asking) reproduces the disagreement,
+        -- the sub type is an optional of `Never` against `AnyResource`, possibly below optionals on both sides
         .violation "runtime-optional-never-anyresource" "sema.IsSubType = interpreter.IsSubType = IsSubTypeOfSemaType" tags
       else if !allSame is then .violation "implementations-disagree" "sema.IsSubType = interpreter.IsSubType = IsSubTypeOfSemaType" tags
       else if eq == "0" && chk == "001" && optNeverVsAnyResource ta tb then
@@ -174,8 +178,8 @@ def judge (op : List String) (go : String) : Verdict :=
         .violation "static-equal-intersection-effective-set" "sema Equal = static Equal on corresponding types" tags
       else if eq != seq || rt != "1" then .violation "static-conversion" "sema -> static -> sema is the identity and preserves equality" tags
       else
-        let m := "eq=" ++ bit mEq ++ " seq=" ++ bit mSeq ++ " is=" ++ bit mIs ++ " chk=" ++ bit mChk ++ " st=" ++ bit mSt
-        if eq == bit mEq && seq == bit mSeq && is.take 1 == bit mIs && (eq == "1" || chk.take 1 == bit mChk) && is.take 1 == bit mSt then .ok tags
+        let m := "eq=" ++ bit mEq ++ " seq=" ++ bit mSeq ++ " is=" ++ mIss ++ " chk=" ++ bit mChk ++ " st=" ++ bit mSt
+        if eq == bit mEq && seq == bit mSeq && is == mIss && (eq == "1" || chk.take 1 == bit mChk) && is.take 1 == bit mSt then .ok tags
         else .modelDiff m tags
     | _, _ => .skip "bad-type"
   | ["types", "refl", a] =>
